@@ -5,17 +5,27 @@ EXTENDS MC_Group
 \* sizes at and around the bit lengths that occur in the box: (3,2) for p=7,q=3 / p=13,q=3; (5,4) for p=23,q=11;
 \* (5,3) for p=29,q=7 / p=31,q=5; (6,5) for p=47,q=23; each also refuses the next shorter group
 SZ == {<<3, 2>>, <<5, 3>>, <<5, 4>>, <<6, 5>>}
-V_dlog == {V("dlog", s[1], s[2], 0, 0, c, 0) : s \in SZ, c \in BOOLEAN}
-V_dlog_nc == {V("dlog", s[1], s[2], 0, 0, FALSE, 0) : s \in SZ}
-V_qr == {V("qr", s[1], 0, s[2], 0, TRUE, 0) : s \in {<<3, 1>>, <<3, 3>>, <<5, 4>>, <<5, 6>>, <<6, 3>>, <<6, 6>>}}
-V_pqgh == {V("pqgh", s[1], s[2], 0, 0, c, 0) : s \in SZ, c \in BOOLEAN}
-V_pqg == {V("pqg", s[1], s[2], 0, 0, FALSE, 0) : s \in SZ}
-V_com1 == {V("com", s[1], s[2], 0, 0, FALSE, 1) : s \in SZ}
-V_com2 == {V("com", s[1], s[2], 0, 0, FALSE, 2) : s \in {<<3, 2>>, <<5, 4>>}}
-V_com3 == {V("com", 5, 4, 0, 0, FALSE, 3)}
-V_vsshe == {V("com", 5, 4, 0, le, FALSE, 2) : le \in {1, 2, 3}}
-V_com2v == V_com2 \cup V_vsshe
-V_small == V_dlog \cup V_qr \cup V_pqg \cup V_com1
-V_canon == {w \in V_dlog \cup V_pqgh : w.canon}
-V_all2 == V_dlog \cup V_qr \cup V_pqgh \cup V_pqg \cup V_com1 \cup V_com2 \cup V_vsshe
+SZ2 == {<<3, 2>>, <<5, 4>>}
+QRSZ == {<<3, 1>>, <<3, 3>>, <<5, 4>>, <<5, 6>>, <<6, 3>>, <<6, 6>>}
+Dlog(S) == {V("dlog", s[1], s[2], 0, 0, c, 0) : s \in S, c \in BOOLEAN}
+QR(S) == {V("qr", s[1], 0, s[2], 0, TRUE, 0) : s \in S}
+PQGH(S) == {V("pqgh", s[1], s[2], 0, 0, c, 0) : s \in S, c \in BOOLEAN}
+PQG(S) == {V("pqg", s[1], s[2], 0, 0, FALSE, 0) : s \in S}
+Com(S, n) == {V("com", s[1], s[2], 0, 0, FALSE, n) : s \in S}
+Vsshe(S, L) == {V("com", s[1], s[2], 0, le, FALSE, 2) : s \in S, le \in L}
+
+\* accepting sets of the whole box (Mode "acc")
+A_one == Dlog(SZ) \cup QR(QRSZ) \cup PQG(SZ) \cup Com(SZ, 1)
+A_two == PQGH(SZ)
+A_com == Com(SZ2, 2) \cup Vsshe({<<3, 2>>, <<5, 4>>}, {1, 2, 3})
+A_com3 == Com({<<5, 4>>}, 3)
+\* well-formed sets and their single-field neighbourhoods (Mode "nbr")
+N_one == Dlog(SZ2) \cup QR({<<3, 3>>, <<5, 4>>, <<6, 3>>}) \cup PQG(SZ2)
+N_com1 == Com(SZ2, 1)
+N_two == PQGH(SZ2)
+N_com == Com(SZ2, 2) \cup Vsshe({<<3, 2>>, <<5, 4>>}, {1, 2})
+N_com3 == Com({<<5, 4>>}, 3)
+E_one == {V("pqg", 3, 2, 0, 0, FALSE, 0)}
+\* variants that need the oracle
+V_canon == {w \in Dlog(SZ) \cup PQGH(SZ) : w.canon}
 =============================================================================
